@@ -244,6 +244,13 @@ func walkString(s string, f func(i int, p lsp.Position) bool) {
 	lastCR := false
 
 	for i, r := range s {
+		if r == '\n' && lastCR {
+			// This \n is part of a \r\n sequence, which is a single line break:
+			// the index between the two bytes doesn't have a position of its
+			// own, and must not shadow the start of the next line.
+			lastCR = false
+			continue
+		}
 		if !f(i, p) {
 			return
 		}
@@ -252,12 +259,8 @@ func walkString(s string, f func(i int, p lsp.Position) bool) {
 			p.Line++
 			p.Character = 0
 		case r == '\n':
-			if lastCR {
-				// Ignore \n if it's part of a \r\n sequence
-			} else {
-				p.Line++
-				p.Character = 0
-			}
+			p.Line++
+			p.Character = 0
 		case r <= 0xFFFF:
 			// Encoded in UTF-16 with one unit
 			p.Character++
